@@ -56,7 +56,7 @@ Discovery(id, recs, tail, tailname) ==
 DiscoveryTwice(id, recs) ==
   LET one == Discovery(id, recs, <<>>, "none") IN
   [one EXCEPT !.steps = one.steps \o << one.steps[2] >>, !.info = [one.info EXCEPT !.family = "discovery-twice"]]
-Tails == << <<"trailing", <<7, 1, 1>>>>, <<"trunc1", <<192>>>>, <<"trunc2", <<192, 5>>>>, <<"oemtrunc", <<193, 128, 1, 2, 3>>>>,
+Tails == << <<"zeropad", <<0, 0, 0>>>>, <<"zero1", <<0>>>>, <<"stray3f", <<192, 3, 1, 65, 63, 129>>>>, <<"trailing", <<7, 1, 1>>>>, <<"trunc1", <<192>>>>, <<"trunc2", <<192, 5>>>>, <<"oemtrunc", <<193, 128, 1, 2, 3>>>>,
             <<"oemtrunc1", <<193>>>>, <<"oemtrunc4", <<193, 128, 1, 2>>>>, <<"badauth", <<192, 9, 200>>>>, <<"badauth2", <<193, 130, 1, 2, 3, 70>>>> >>
 DiscoverySet ==
   LET perLen == IF Tier = "thorough" THEN 24 ELSE 4
@@ -203,7 +203,11 @@ SelectionSet ==
       \* with the default list, with the same explicit list, over few and many advertised records
       pairs == { SelectionTwice("st-" \o ToString(p) \o "-" \o ToString(a1) \o "-" \o ToString(a2), p, a1, p, a2)
                    : p \in {<<>>, <<SelU[1], SelU[2]>>, <<SelU[3], SelU[1], SelU[2]>>}, a1 \in {{SelU[2]}, {SelU[2], SelU[4]}, U}, a2 \in {U, {SelU[1], SelU[2]}} }
-  IN { Selection("s-" \o ToString(p) \o "-" \o ToString(a), p, a) : p \in prefs, a \in SUBSET U } \cup pairs \cup MultiSet \cup AfterFailedSet
+      \* preference lists longer than any machine word has bits: the advertised preference is the 31st .. 40th entry
+      filler == [i \in 1..40 |-> <<1 + (i % 3), 1 + (i % 4), 2 + (i % 2)>>]                 \* combinations no BMC here advertises (xRC4)
+      long == { Selection("sl-" \o ToString(pos) \o "-" \o ToString(k), [i \in 1..(pos + k) |-> IF i = pos THEN SelU[2] ELSE IF i = pos + 1 /\ k > 0 THEN SelU[1] ELSE filler[i]], {SelU[1], SelU[2]})
+                : pos \in {30, 31, 32, 33, 34, 40}, k \in {0, 1} }
+  IN { Selection("s-" \o ToString(p) \o "-" \o ToString(a), p, a) : p \in prefs, a \in SUBSET U } \cup pairs \cup MultiSet \cup AfterFailedSet \cup long
 
 \* C17: the same scenarios judged as histories on one connection (a second discovery / establishment must not see the first)
 Reprop(sc, p) == [sc EXCEPT !.steps = [i \in 1..Len(sc.steps) |-> IF "exp" \in DOMAIN sc.steps[i]
@@ -215,7 +219,7 @@ ReuseSet ==
   \cup { Reprop(SelectionTwice("rst-" \o ToString(p) \o "-" \o ToString(a1) \o "-" \o ToString(a2), p, a1, p, a2), "C17")
             : p \in {<<>>, <<SelU[1], SelU[2]>>, <<SelU[3], SelU[1], SelU[2]>>}, a1 \in {{SelU[2]}, {SelU[2], SelU[4]}, U}, a2 \in {U, {SelU[1], SelU[2]}, {SelU[1]}} }
 
-Scripts == CASE Family = "discovery" -> DiscoverySet [] Family = "selection" -> SelectionSet [] Family = "endless" -> EndlessSet [] Family = "reuse" -> ReuseSet
+Scripts == CASE Family = "discovery13" -> { Reprop(sc, "C13") : sc \in {d \in DiscoverySet : d.info.tail # "none"} } [] Family = "discovery" -> DiscoverySet [] Family = "selection" -> SelectionSet [] Family = "endless" -> EndlessSet [] Family = "reuse" -> ReuseSet
 Header == [header |-> TRUE, family |-> Family]
 ASSUME PrintT(<<"HEADER", ToJson(Header)>>)
 ASSUME \A s \in Scripts : PrintT(<<"SCRIPT", ToJson(s)>>)
